@@ -115,8 +115,9 @@ def r1(run: Run, src, g, em, forms):
         elif op == '&':
             ok = isinstance(b, ast.BinOp) and isinstance(b.op, ast.Add) and _is_str_call(b.left, la) and _is_str_call(b.right, ra)
             run.check(ok, 'C01.R1', construct, 'concatenation-form',
-                      f'Excel & is printed as `{_plain(sk.text)}`; expected `str(L) + str(R)` (text form of both operands, in order)',
-                      fact='str(L) + str(R)', loc=loc)
+                      f'Excel & is printed as `{_plain(sk.text)}`; expected `T(L) + T(R)` with T = str or a text-form helper of the '
+                      f'runtime ({sorted(_TEXT_HELPERS)}): the text form of both operands, in order',
+                      fact='text(L) + text(R)', loc=loc)
         else:
             ok = isinstance(b, ast.Call) and isinstance(b.func, ast.Attribute) and b.func.attr == '_compare' and len(b.args) == 3 \
                 and isinstance(b.args[0], ast.Constant) and b.args[0].value == py and _is_atom(b.args[1], la) and \
@@ -138,9 +139,46 @@ def _is_atom(node, name):
     return isinstance(node, ast.Name) and node.id == name
 
 
+_TEXT_HELPERS: set = set()
+
+
+def init_text_helpers(rt):
+    """runtime helpers that are text-form functions: one argument, and every returned value is str(...) or a text constant
+    (in both copies).  `self.<helper>(X)` is then a text form of X just as `str(X)` is."""
+    out = None
+    for cp in rt.copies():
+        names = set()
+        for name, fn in cp.members.items():
+            if not isinstance(fn, ast.FunctionDef) or '.' in name:
+                continue
+            ps = [a.arg for a in fn.args.args if a.arg not in ('self', 'cls')]
+            rets = [r for r in ast.walk(fn) if isinstance(r, ast.Return)]
+            if len(ps) != 1 or not rets or fn.args.vararg or fn.args.kwarg:
+                continue
+            if all(r.value is not None and ((isinstance(r.value, ast.Call) and isinstance(r.value.func, ast.Name) and r.value.func.id == 'str')
+                                            or (isinstance(r.value, ast.Constant) and isinstance(r.value.value, str))) for r in rets) and \
+                    any(isinstance(r.value, ast.Call) and ps[0] in {n.id for n in ast.walk(r.value) if isinstance(n, ast.Name)} for r in rets):
+                names.add(name)
+        out = names if out is None else out & names
+    _TEXT_HELPERS.clear()
+    _TEXT_HELPERS.update(out or set())
+    return set(_TEXT_HELPERS)
+
+
+def _text_wrapper_of(node):
+    """the single argument of str(X) / self.<text-form helper>(X), else None"""
+    if isinstance(node, ast.Call) and len(node.args) == 1 and not node.keywords:
+        f = node.func
+        if isinstance(f, ast.Name) and f.id == 'str':
+            return node.args[0]
+        if isinstance(f, ast.Attribute) and isinstance(f.value, ast.Name) and f.value.id == 'self' and f.attr in _TEXT_HELPERS:
+            return node.args[0]
+    return None
+
+
 def _is_str_call(node, name):
-    return isinstance(node, ast.Call) and isinstance(node.func, ast.Name) and node.func.id == 'str' and len(node.args) == 1 and \
-        _is_atom(node.args[0], name)
+    a = _text_wrapper_of(node)
+    return a is not None and _is_atom(a, name)
 
 
 def _plain(text):
@@ -211,7 +249,7 @@ def _tree(node):
         return (AST_OP[type(node.op)], l, r)
     if isinstance(node, ast.Call):
         f = node.func
-        if isinstance(f, ast.Name) and f.id == 'str' and len(node.args) == 1:
+        if _text_wrapper_of(node) is not None:
             return ('str', _tree(node.args[0]))
         if isinstance(f, ast.Attribute) and f.attr == '_compare' and len(node.args) == 3:
             return ('cmp', _tree(node.args[1]), _tree(node.args[2]))
@@ -609,6 +647,7 @@ def run(run: Run):
     run.rule('C01.R4', 'grouping of every ordered pair of adjacent operator classes equals the Excel precedence levels')
     run.rule('C01.R5', 'a numeric literal is one correctly rounded conversion of its text')
     run.rule('C01.R6', 'postfix % = /100 through a 15-significant-digit normaliser; blank is int 0')
+    init_text_helpers(rt)
     forms = run.guard('C01.R1', _forms, run, src, g, em)
     if not forms:
         run.error('C01.R1', 'no emission forms could be extracted from ExpressionTokenTranslator')
